@@ -821,7 +821,8 @@ func (se *SessionExecutor) executeMultipleSQLInSlice(requestContext *util.Reques
 		sqlStatements := sqlStatementsMap[dbName]
 		for _, sqlStatement := range sqlStatements {
 			// 创建一个通道来接收 Execute 的结果
-			execResultChan := make(chan executeResult)
+			// (buffered: after a timeout nobody receives any more and the worker must still be able to finish)
+			execResultChan := make(chan executeResult, 1)
 			startTime := time.Now()
 
 			// 1) 为当前这条 SQL 新开一个协程（go routine）去执行
@@ -853,6 +854,9 @@ func (se *SessionExecutor) executeMultipleSQLInSlice(requestContext *util.Reques
 				if killErr := se.killSliceQueries(pooledConn, currentSliceName, sqlStatement); killErr != nil {
 					log.Warn("failed to kill query error: %v", killErr)
 				}
+				// 关闭连接，防止复用有问题: the worker goroutine may still be waiting on it, so it must
+				// not go back to the pool as a usable connection (same as executeUnshardSQLInSlice)
+				pooledConn.Close()
 				return sliceResults, fmt.Errorf("slice: %s execution timed out, sql : %s", currentSliceName, sqlStatement)
 			case execResult := <-execResultChan:
 				// SQL 执行成功/失败，记录SQL
